@@ -207,6 +207,11 @@ def arg_spec(a, sp, level=0):
             # an escaped mapping is returned as it is by the parser: nothing inside it is
             # looked at, so nothing inside it is escaped
             return escape_literal_mapping({k: arg_spec(v, sp, 99) for k, v in a.items()})
+        pathy = [k for k in a if type(k) is str and k.lower().split(".")[0] == "path"]
+        if level <= 1 and len(a) > 1 and pathy and not _has_escaped_key(a) and sp.pick([False, True], "needless-escape"):
+            # a mapping of several items is never read as a path spec; its path-like keys may still be written
+            # escaped (the parser un-escapes the keys of such a mapping and looks at nothing inside it)
+            return sp.shuffled({("\\" + k if k in pathy else k): arg_spec(v, sp, 99) for k, v in a.items()})
         return sp.shuffled({k: arg_spec(v, sp, level + 1) for k, v in a.items()})
     return a
 
